@@ -772,6 +772,10 @@ def leblen(t):
     if f is None:
         f = z3.Function('leb128_len', z3.BitVecSort(64), z3.BitVecSort(64))
         LEB_APPS['__f__'] = f
+    from . import lin as _lin
+    t = _lin.canon(t)                 # arithmetically equal arguments give the same application
+    if z3.is_bv_value(t):
+        return z3.BitVecVal(_leb_int(t.as_long()), 64)
     app = f(t)
     LEB_APPS[app.get_id()] = (app, t)
     return app
